@@ -3,6 +3,8 @@ package h
 import (
 	"bytes"
 
+	sdk "github.com/cosmos/cosmos-sdk/types"
+
 	"hv/env"
 	"hv/nd"
 
@@ -69,17 +71,54 @@ func selfcomp(id string, op Op, ps []Pos, o Opts, pending bool) {
 	}
 }
 
-func H_C19_selfcomp_delegate()   { selfcomp("C19.selfcomp.delegate", OpDelegate, shape3("shape"), Opts{Rewards: true, BigPool: true, StrictRewards: true}, false) }
-func H_C19_selfcomp_undelegate() { selfcomp("C19.selfcomp.undelegate", OpUndelegate, shapeActor("shape"), Opts{Rewards: true, BigPool: true, StrictRewards: true}, false) }
-func H_C19_selfcomp_redelegate() { selfcomp("C19.selfcomp.redelegate", OpRedelegate, shapeActor("shape"), Opts{Rewards: true, BigPool: true, StrictRewards: true}, false) }
-func H_C19_selfcomp_claim()      { selfcomp("C19.selfcomp.claim", OpClaim, shapeActor("shape"), Opts{Rewards: true, BigPool: true, StrictRewards: true}, false) }
+func H_C19_selfcomp_delegate() {
+	selfcomp("C19.selfcomp.delegate", OpDelegate, shape3("shape"), Opts{Rewards: true, BigPool: true, StrictRewards: true}, false)
+}
+func H_C19_selfcomp_undelegate() {
+	selfcomp("C19.selfcomp.undelegate", OpUndelegate, shapeActor("shape"), Opts{Rewards: true, BigPool: true, StrictRewards: true}, false)
+}
+func H_C19_selfcomp_redelegate() {
+	selfcomp("C19.selfcomp.redelegate", OpRedelegate, shapeActor("shape"), Opts{Rewards: true, BigPool: true, StrictRewards: true}, false)
+}
+func H_C19_selfcomp_claim() {
+	selfcomp("C19.selfcomp.claim", OpClaim, shapeActor("shape"), Opts{Rewards: true, BigPool: true, StrictRewards: true}, false)
+}
+
 // first reward deposit in two denominations at once: the order of the new history entries must not depend on a map
 func H_C19_selfcomp_claim2() {
 	selfcomp("C19.selfcomp.claim2", OpClaim, []Pos{{0, 0, 0}, {1, 0, 0}}, Opts{Rewards: true, TwoRewards: true, BigPool: true, StrictRewards: true}, false)
 }
-func H_C19_selfcomp_slash()      { selfcomp("C19.selfcomp.slash", OpSlash, shapeActor("shape"), Opts{}, true) }
+func H_C19_selfcomp_slash() {
+	selfcomp("C19.selfcomp.slash", OpSlash, shapeActor("shape"), Opts{}, true)
+}
 func H_C19_selfcomp_endblock() {
 	selfcomp("C19.selfcomp.endblock", OpEndBlock, shapeActor("shape"), Opts{TakeRate: true}, true)
+}
+
+// H_C19_discarded_branch: the outcome of a transaction does not depend on what the process executed on
+// a cache context that was discarded before (failed, simulated or out-of-gas transaction): the stores
+// roll back, the long-lived keeper object stays - so the keeper must not carry state of its own.
+// Run Delegate+Claim on the live keeper, roll the stores back, run the operation; compare with the
+// same operation on a pristine copy of the state (own keeper).
+func H_C19_discarded_branch() {
+	id := "C19.discarded"
+	op := []Op{OpDelegate, OpUndelegate, OpRedelegate}[nd.Choice("op", 3)]
+	st := Build([]Pos{{0, 0, 0}, {1, 0, 0}}, Opts{Rewards: true, BigPool: true, StrictRewards: true})
+	e := st.E
+	snap := e.Branch()
+	ref := *st
+	ref.E = e.Branch()
+	// the discarded transaction: a write followed by a read of the asset and the validator
+	Caught(func() {
+		_, _ = e.K.Delegate(e.Ctx, Dels[1], AV(e, Vals[0]), sdk.NewCoin(Denoms[0], nd.IntRange("amt0", "1", Pow30)))
+		_, _ = e.K.ClaimDelegationRewards(e.Ctx, Dels[1], AV(e, Vals[0]), Denoms[0])
+	})
+	e.RestoreFrom(snap)
+	ok1 := RunOp(st, op, id, false)
+	nd.Reach(id)
+	ok2 := RunOp(&ref, op, id, false)
+	nd.Assert(id+".result", ok1 == ok2)
+	sameState(id, e, ref.E)
 }
 
 // H_C19_selfcomp_invariant: the module's delegator-share invariant (the only repository code
